@@ -345,87 +345,134 @@ func c43FuncWrapper(c *an.Ctx, t c43Type, e *c43Eng) {
 		return
 	}
 	ff := t.funcs[0]
-	// calls through the function field
-	var fcalls []*ssa.Call
-	for _, cl := range an.AllCalls(fn) {
-		if cv := an.CallValue(cl); cv != nil && !cv.Call.IsInvoke() && an.LoadOfField(cv.Call.Value, recv, ff) {
-			fcalls = append(fcalls, cv)
+	// the call through the function field: in Next or in a same-receiver method it calls
+	var closure []*ssa.Function
+	for _, m := range e.methods {
+		if e.closure[m] {
+			closure = append(closure, m)
 		}
 	}
-	if !c.Need(len(fcalls) == 1, fmt.Sprintf("exactly one call through %s.%s in Next (found %d)", t.named.Obj().Name(), ff, len(fcalls))) {
+	var fcalls []*ssa.Call
+	var cf *ssa.Function
+	for _, m := range closure {
+		for _, cl := range an.AllCalls(m) {
+			if cv := an.CallValue(cl); cv != nil && !cv.Call.IsInvoke() && an.LoadOfField(cv.Call.Value, m.Params[0], ff) {
+				fcalls = append(fcalls, cv)
+				cf = m
+			}
+		}
+	}
+	if !c.Need(len(fcalls) == 1, fmt.Sprintf("exactly one call through %s.%s in Next or the same-receiver methods it calls (found %d)", t.named.Obj().Name(), ff, len(fcalls))) {
 		return
 	}
 	fc := fcalls[0]
-	innerVal := func(v ssa.Value) bool {
-		for _, vc := range c43InnerCalls(fn, t.inner[0], "Val") {
+	cname := an.FuncName(cf)
+	// innerVal: v (in method m) is the inner iterator's Val() read where the inner Next() is known to have returned true
+	innerVal := func(m *ssa.Function, v ssa.Value) bool {
+		for _, vc := range c43InnerCalls(m, t.inner[0], "Val") {
 			if cv := an.CallValue(vc); cv != nil && an.Aliases(cv)[v] {
-				// the Val() read must follow the successful Next()
-				return e.guardedSite(fn, cv, c43IT, 0)
+				return e.guardedSite(m, cv, c43IT, 0)
 			}
 		}
 		return false
 	}
-	sts := an.StoresToFieldNamed(fn, recv, vf)
 	isPredicate := false
 	if r := fc.Call.Signature().Results(); r.Len() == 1 && types.Identical(r.At(0).Type().Underlying(), types.Typ[types.Bool]) {
 		isPredicate = true
 	}
-	blocked := map[ssa.Instruction]bool{}
-	if isPredicate {
-		// Filter: val = inner.Val(); yield only where f(val) is true
-		for _, st := range sts {
-			ok := innerVal(st.Val)
-			c.Check(ok, "O4", "R-FLOW", name, vf+"=inner.Val", st.Pos(), "the yielded value is the inner iterator's current value",
-				"the value stored for Val() is not the inner iterator's Val() read after its Next(): Filter yields values that are not elements of the underlying sequence")
-			if ok {
-				blocked[st] = true
+	// stores to the value field, judged in the method they live in
+	good := map[ssa.Instruction]bool{}
+	nSts := 0
+	for _, m := range closure {
+		for _, st := range an.StoresToFieldNamed(m, m.Params[0], vf) {
+			nSts++
+			mname := an.FuncName(m)
+			if isPredicate {
+				ok := innerVal(m, st.Val)
+				c.Check(ok, "O4", "R-FLOW", mname, vf+"=inner.Val", st.Pos(), "the yielded value is the inner iterator's current value",
+					"the value stored for Val() is not the inner iterator's Val() read after its Next(): Filter yields values that are not elements of the underlying sequence")
+				good[st] = ok
+			} else {
+				ok := m == cf && an.Aliases(fc)[st.Val]
+				c.Check(ok, "O4", "R-FLOW", mname, vf+"="+ff+"(..)", st.Pos(), "the yielded value is the image of the current element",
+					"the value stored for Val() is not the result of the mapping function")
+				good[st] = ok
 			}
 		}
+	}
+	c.Min("O4 stores to "+t.named.Obj().Name()+"."+vf, nSts, 1)
+	// in Next: instructions after which the value field holds the current value: a good store, or a call of a
+	// helper every return of which is preceded by a good store
+	blocked := map[ssa.Instruction]bool{}
+	for st, ok := range good {
+		if ok && st.Parent() == fn {
+			blocked[st] = true
+		}
+	}
+	for _, cl := range an.AllCalls(fn) {
+		cv := an.CallValue(cl)
+		if cv == nil {
+			continue
+		}
+		if h, _ := e.helperOf(fn, cv); h != nil {
+			var hs []ssa.Instruction
+			for st, ok := range good {
+				if ok && st.Parent() == h {
+					hs = append(hs, st)
+				}
+			}
+			all := len(hs) > 0
+			for _, r := range an.Returns(h) {
+				all = all && an.MustPrecede(h, r, hs)
+			}
+			if all {
+				blocked[cl] = true
+			}
+		}
+	}
+	if isPredicate {
 		// predicate argument: the stored value (load of the field after the store) or the same inner Val()
 		arg := fc.Call.Args
-		okArg := len(arg) == 1 && (innerVal(arg[0]) || (an.LoadOfField(arg[0], recv, vf) && len(sts) > 0 && func() bool {
-			for _, st := range sts {
-				if blocked[st] && an.Dominates(st, fc) {
+		okArg := len(arg) == 1 && (innerVal(cf, arg[0]) || (an.LoadOfField(arg[0], cf.Params[0], vf) && func() bool {
+			for st, ok := range good {
+				if ok && st.Parent() == cf && an.Dominates(st, fc) {
 					return true
 				}
 			}
 			return false
 		}()))
-		c.Check(okArg, "O4", "R-FLOW", name, ff+"(arg)=current", fc.Pos(), "the predicate is applied to the value that will be yielded",
+		c.Check(okArg, "O4", "R-FLOW", cname, ff+"(arg)=current", fc.Pos(), "the predicate is applied to the value that will be yielded",
 			"the predicate is not applied to the value just read from the inner iterator: elements are kept or dropped according to another element")
-		ptrue := an.BoolEdges(fn, []ssa.Value{fc}, true)
+		// fact: the predicate returned true
+		e.extra[c43PT] = func(m *ssa.Function, atom ssa.Value) (bool, bool) {
+			if m == cf && an.Aliases(fc)[atom] {
+				return true, false
+			}
+			return false, false
+		}
 		for _, r := range an.Returns(fn) {
+			r := r
 			if len(r.Results) == 1 && !c43IsConstBool(r.Results[0], false) {
-				ok := c43IsConstBool(r.Results[0], true) && !an.Reaches(fn, fc, r, ptrue, nil) && an.Dominates(fc, r)
-				c.Check(ok, "O4", "R-DOM", name, "return-true<="+ff+"-true", r.Pos(), "a value is yielded only where the predicate returned true",
+				guard := func(s an.EdgeSet) bool { return len(s) > 0 && an.GuardedBy(fn, nil, r, s) }
+				c.Check(e.valueImplies(fn, r.Results[0], true, guard, c43PT, 0), "O4", "R-DOM", name, "return-true<="+ff+"-true", r.Pos(), "a value is yielded only where the predicate returned true",
 					"Next() returns true on a path where the predicate did not return true: Filter yields rejected values (or the test is inverted)")
-				ok2 := !reachesFromEvent(r, blocked)
-				c.Check(ok2, "O4", "R-POST", name, "return-true<="+vf+"-store", r.Pos(), "the yielded value is stored before returning true",
+				c.Check(!reachesFromEvent(r, blocked), "O4", "R-POST", name, "return-true<="+vf+"-store", r.Pos(), "the yielded value is stored before returning true",
 					"Next() returns true without storing the current value: Val() yields a stale element")
 			}
 		}
 	} else {
 		// Map: val = f(inner.Val())
-		okArg := len(fc.Call.Args) == 1 && innerVal(fc.Call.Args[0])
-		c.Check(okArg, "O4", "R-FLOW", name, ff+"(arg)=inner.Val", fc.Pos(), "the mapping function is applied to the inner iterator's current value",
+		okArg := len(fc.Call.Args) == 1 && innerVal(cf, fc.Call.Args[0])
+		c.Check(okArg, "O4", "R-FLOW", cname, ff+"(arg)=inner.Val", fc.Pos(), "the mapping function is applied to the inner iterator's current value",
 			"the mapping function is not applied to the inner Val() read after the successful Next(): Map yields images of the wrong elements")
-		for _, st := range sts {
-			ok := an.Aliases(fc)[st.Val]
-			c.Check(ok, "O4", "R-FLOW", name, vf+"="+ff+"(..)", st.Pos(), "the yielded value is the image of the current element",
-				"the value stored for Val() is not the result of the mapping function")
-			if ok {
-				blocked[st] = true
-			}
-		}
 		for _, r := range an.Returns(fn) {
 			if len(r.Results) == 1 && !c43IsConstBool(r.Results[0], false) {
-				ok := !reachesFromEvent(r, blocked)
-				c.Check(ok, "O4", "R-POST", name, "return-true<="+vf+"-store", r.Pos(), "the mapped value is stored before returning true",
+				c.Check(!reachesFromEvent(r, blocked), "O4", "R-POST", name, "return-true<="+vf+"-store", r.Pos(), "the mapped value is stored before returning true",
 					"Next() returns true without storing f(inner.Val()): Val() yields a stale element")
 			}
 		}
 	}
-	c.Min("O4 stores to "+t.named.Obj().Name()+"."+vf, len(sts), 1)
+	_ = recv
 }
 
 func c43Slice(c *an.Ctx, t c43Type) {
@@ -540,15 +587,40 @@ func c43JSON(c *an.Ctx, t c43Type) {
 		return
 	}
 	done := t.bools[0]
+	// the Decode call: in Next, or in a package-local function Next calls that returns
+	// (decoded value, Decode's error) — then that call is the decode event in Next
+	dfn := fn
 	dec := an.Calls(fn, an.M("encoding/json", "Decoder", "Decode"))
-	if !c.Need(len(dec) == 1 && an.CallValue(dec[0]) != nil, "one json.Decoder.Decode call in JSONIter.Next") {
+	var hcall *ssa.Call
+	if len(dec) == 0 {
+		for _, cl := range an.AllCalls(fn) {
+			cv := an.CallValue(cl)
+			g := an.Callee(cl).Static
+			if g != nil && g.Origin() != nil {
+				g = g.Origin()
+			}
+			if cv == nil || g == nil || g == fn || len(g.Blocks) == 0 || g.Pkg != fn.Pkg {
+				continue
+			}
+			if ds := an.Calls(g, an.M("encoding/json", "Decoder", "Decode")); len(ds) > 0 {
+				dfn, dec, hcall = g, ds, cv
+			}
+		}
+	}
+	if !c.Need(len(dec) == 1 && an.CallValue(dec[0]) != nil, "one json.Decoder.Decode call in JSONIter.Next (or in a package-local function it calls)") {
 		return
 	}
 	d := dec[0]
+	// event: the instruction of Next at which the decode happens
+	var ev ssa.Instruction = d
+	if hcall != nil {
+		ev = hcall
+	}
 	dl := an.LoadsOfFieldNamed(fn, recv, done)
-	c.Check(an.GuardedBy(fn, nil, d.(ssa.Instruction), an.BoolEdges(fn, dl, false)), "O6", "R-DOM", name, "Decode<=!"+done, d.Pos(),
+	c.Check(an.GuardedBy(fn, nil, ev, an.BoolEdges(fn, dl, false)), "O6", "R-DOM", name, "Decode<=!"+done, ev.Pos(),
 		"Decode is only called where done is false", "Decode is called although the iterator is done/closed: values are read past the end or after Close")
 	errs := an.ErrResult(d)
+	var decoded []ssa.Value // the decoded value as seen in Next
 	// the destination of Decode is a fresh zero value of this call (encoding/json merges into a
 	// non-zero destination: absent fields keep old values, slices/maps/pointers are reused), never
 	// storage that survives between calls (a receiver field, a captured variable)
@@ -559,22 +631,64 @@ func c43JSON(c *an.Ctx, t c43Type) {
 		var cells []*ssa.Alloc
 		for _, r := range an.Roots(dst, nil) {
 			a, ok := r.(*ssa.Alloc)
-			if !ok || a.Parent() != fn {
+			if !ok || a.Parent() != dfn {
 				okFresh = false
 				why = "decodes into " + an.PathOf(r)
 				continue
 			}
 			cells = append(cells, a)
 			for _, ref := range *a.Referrers() {
-				if st, ok := ref.(*ssa.Store); ok && st.Addr == ssa.Value(a) && an.Reaches(fn, st, d.(ssa.Instruction), nil, nil) {
+				if st, ok := ref.(*ssa.Store); ok && st.Addr == ssa.Value(a) && an.Reaches(dfn, st, d.(ssa.Instruction), nil, nil) {
 					okFresh = false
 					why = "the destination is written before Decode"
 				}
 			}
 		}
-		c.Check(okFresh && len(cells) > 0, "O6", "R-FLOW", name, "Decode(&fresh-zero-value)", d.Pos(),
+		c.Check(okFresh && len(cells) > 0, "O6", "R-FLOW", an.FuncName(dfn), "Decode(&fresh-zero-value)", d.Pos(),
 			"every Next decodes into a fresh zero value",
 			"Decode's destination is not a fresh per-call zero value ("+why+"): encoding/json merges into the previous element, so a value that omits a field inherits it from an earlier one and previously yielded slices/maps/pointers are overwritten — the yielded list differs from the element-wise decode")
+		isDecodedLoad := func(v ssa.Value) bool {
+			u, ok := v.(*ssa.UnOp)
+			if !ok || u.Op != token.MUL {
+				return false
+			}
+			for _, a := range cells {
+				if u.X == ssa.Value(a) && an.Dominates(d.(ssa.Instruction), u) {
+					return true
+				}
+			}
+			return false
+		}
+		if hcall != nil {
+			// the helper hands on exactly (decoded value, Decode's error)
+			vi, ei := -1, -1
+			okH := true
+			for _, r := range an.Returns(dfn) {
+				for k, rv := range r.Results {
+					switch {
+					case isDecodedLoad(rv):
+						if vi >= 0 && vi != k {
+							okH = false
+						}
+						vi = k
+					case an.Aliases(errs...)[rv]:
+						if ei >= 0 && ei != k {
+							okH = false
+						}
+						ei = k
+					default:
+						okH = false
+					}
+				}
+			}
+			if !c.Check(okH && vi >= 0 && ei >= 0, "O6", "R-FLOW", an.FuncName(dfn), "return=(decoded,Decode-error)", dfn.Pos(),
+				"the decode helper returns the decoded value and the Decode error unchanged",
+				"the decode helper does not return exactly (the value it decoded, the error of Decode): Next judges end-of-input and errors on something else than the decoder's result") {
+				return
+			}
+			decoded = an.Result(hcall, vi)
+			errs = an.Result(hcall, ei)
+		}
 		// the yielded value is that destination, read after Decode
 		if okFresh {
 			nVal := 0
@@ -589,18 +703,13 @@ func c43JSON(c *an.Ctx, t c43Type) {
 					return
 				}
 				nVal++
-				u, ok := st.Val.(*ssa.UnOp)
-				good := false
-				if ok && u.Op == token.MUL {
-					for _, a := range cells {
-						if u.X == ssa.Value(a) && an.Dominates(d.(ssa.Instruction), u) {
-							good = true
-						}
-					}
+				good := isDecodedLoad(st.Val)
+				if hcall != nil {
+					good = an.Aliases(decoded...)[st.Val]
 				}
 				okVal = okVal && good
 			})
-			c.Check(okVal && nVal > 0, "O6", "R-FLOW", name, "res.Val=decoded", d.Pos(), "the yielded value is the freshly decoded one",
+			c.Check(okVal && nVal > 0, "O6", "R-FLOW", name, "res.Val=decoded", ev.Pos(), "the yielded value is the freshly decoded one",
 				"the value stored for Val() is not the destination of this call's Decode (read after it): stale or foreign values are yielded")
 		}
 	}
@@ -631,15 +740,15 @@ func c43JSON(c *an.Ctx, t c43Type) {
 	}
 	nEOF := 0
 	for _, r := range an.Returns(fn) {
-		if len(r.Results) != 1 || !an.Reaches(fn, d, r, nil, nil) {
+		if len(r.Results) != 1 || !an.Reaches(fn, ev, r, nil, nil) {
 			continue
 		}
 		if c43IsConstBool(r.Results[0], false) {
 			nEOF++
-			ok := len(eofT) > 0 && !an.Reaches(fn, d, r, eofT, nil)
+			ok := len(eofT) > 0 && !an.Reaches(fn, ev, r, eofT, nil)
 			c.Check(ok, "O6", "R-DOM", name, "return-false<=EOF", r.Pos(), "after Decode the iteration ends only on io.EOF",
 				"Next() returns false after Decode on a path where the error is not io.EOF: a decodable value or a decode error is swallowed")
-			ok2 := !an.Reaches(fn, d, r, nil, blocked)
+			ok2 := !an.Reaches(fn, ev, r, nil, blocked)
 			c.Check(ok2, "O6", "R-POST", name, "EOF=>"+done, r.Pos(), "end of input is recorded in done", "end of input is not recorded in done: Decode is called again after EOF")
 		}
 	}
@@ -660,11 +769,11 @@ func c43JSON(c *an.Ctx, t c43Type) {
 	isNil := an.NilEdges(fn, errs, true).Union(an.NilEdges(fn, errLoads, true))
 	okErr := true
 	for _, r := range an.Returns(fn) {
-		if len(r.Results) == 1 && !c43IsConstBool(r.Results[0], false) && an.Reaches(fn, d, r, isNil.Union(eofT), blocked) {
+		if len(r.Results) == 1 && !c43IsConstBool(r.Results[0], false) && an.Reaches(fn, ev, r, isNil.Union(eofT), blocked) {
 			okErr = false
 		}
 	}
-	c.Check(okErr, "O6", "R-POST", name, "err=>"+done, d.Pos(), "a decode error stops the iteration (done set)",
+	c.Check(okErr, "O6", "R-POST", name, "err=>"+done, ev.Pos(), "a decode error stops the iteration (done set)",
 		"Next() can return true after a decode error without setting done: the iterator keeps decoding a broken stream and can yield garbage or loop forever")
 	// Close: done = true on every path and the reader is closed when it is an io.Closer
 	cl := t.close
@@ -708,12 +817,13 @@ func c43JSON(c *an.Ctx, t c43Type) {
 // is guarded inside the helper or at every call site of the helper.
 
 const (
-	c43IT   = "inner-true"  // the inner Next() of this activation returned true
-	c43EXH  = "exhausted"   // the inner Next() returned false (now or earlier: done flag set)
-	c43NOTD = "not-done"    // the done flag is false
-	c43OKF  = "limit-open"  // limit <= 0 or count < limit
-	c43LPOS = "limit-pos"   // limit > 0
-	c43CGE  = "count-ge"    // count >= limit
+	c43IT   = "inner-true"     // the inner Next() of this activation returned true
+	c43EXH  = "exhausted"      // the inner Next() returned false (now or earlier: done flag set)
+	c43NOTD = "not-done"       // the done flag is false
+	c43OKF  = "limit-open"     // limit <= 0 or count < limit
+	c43LPOS = "limit-pos"      // limit > 0
+	c43CGE  = "count-ge"       // count >= limit
+	c43PT   = "predicate-true" // the predicate of a filtering wrapper returned true (registered by the O4 rules)
 )
 
 type c43Eng struct {
@@ -727,11 +837,28 @@ type c43Eng struct {
 	memoRet      map[string]int
 	memoEdges    map[string]an.EdgeSet
 	memoHas      map[*ssa.Function]int
+	closure      map[*ssa.Function]bool
+	extra        map[string]func(fn *ssa.Function, atom ssa.Value) (bool, bool)
 }
 
 func c43NewEng(c *an.Ctx, t c43Type) *c43Eng {
-	e := &c43Eng{c: c, t: t, inner: t.inner[0], memoRet: map[string]int{}, memoEdges: map[string]an.EdgeSet{}, memoHas: map[*ssa.Function]int{}}
+	e := &c43Eng{c: c, t: t, inner: t.inner[0], memoRet: map[string]int{}, memoEdges: map[string]an.EdgeSet{}, memoHas: map[*ssa.Function]int{}, extra: map[string]func(*ssa.Function, ssa.Value) (bool, bool){}}
 	e.methods = c.P.MethodsG(t.named)
+	// the same-receiver methods Next (transitively) calls
+	e.closure = map[*ssa.Function]bool{t.next: true}
+	for changed := true; changed; {
+		changed = false
+		for m := range e.closure {
+			for _, cl := range an.AllCalls(m) {
+				if cv := an.CallValue(cl); cv != nil {
+					if h, _ := e.helperOf(m, cv); h != nil && !e.closure[h] {
+						e.closure[h] = true
+						changed = true
+					}
+				}
+			}
+		}
+	}
 	if !e.hasInner(t.next) {
 		c.Problem("%s: no call of the inner Next() in Next or in the same-receiver methods it calls", an.FuncName(t.next))
 		return nil
@@ -780,7 +907,7 @@ func c43NewEng(c *an.Ctx, t c43Type) *c43Eng {
 	for _, f := range t.ints {
 		stored := false
 		for _, m := range e.methods {
-			if e.hasInner(m) && len(an.StoresToFieldNamed(m, m.Params[0], f)) > 0 {
+			if e.closure[m] && len(an.StoresToFieldNamed(m, m.Params[0], f)) > 0 {
 				stored = true
 			}
 		}
@@ -981,6 +1108,11 @@ func (e *c43Eng) atomFact(fn *ssa.Function, fact string, atom ssa.Value) (onT, o
 			}
 		}
 		return false, false
+	}
+	if f := e.extra[fact]; f != nil {
+		if t, fl := f(fn, atom); t || fl {
+			return t, fl
+		}
 	}
 	if b, ok := atom.(*ssa.BinOp); ok && c43NegOp(b.Op) != token.ILLEGAL {
 		// bool == const forms are handled by BoolEdges-like reasoning: x == true / x == false
@@ -1226,7 +1358,7 @@ func (e *c43Eng) checkLimit() {
 	blocked := map[ssa.Instruction]bool{}
 	storing := map[*ssa.Function]bool{} // helpers that advance the counter on every path
 	for _, m := range e.methods {
-		if !e.hasInner(t.next) {
+		if !e.closure[m] {
 			continue
 		}
 		recv := m.Params[0]
